@@ -75,6 +75,7 @@ class Model:
         self.services: Dict[str, ET.Element] = {}
         self.jobs: Dict[str, ET.Element] = {}
         self.messages: Dict[str, ET.Element] = {}
+        self.dops: Dict[str, ET.Element] = {}
         for fn in sorted(files):
             if not fn.lower().endswith(".odx-d"):
                 continue
@@ -84,6 +85,8 @@ class Model:
                     l = Layer(e)
                     self.layers[l.id] = l
                     self.order.append(l.id)
+                    for d in e.findall("DIAG-DATA-DICTIONARY-SPEC/DATA-OBJECT-PROPS/DATA-OBJECT-PROP"):
+                        self.dops[d.get("ID") or ""] = d
                     for s in e.findall("DIAG-COMMS/DIAG-SERVICE"):
                         self.services[s.get("ID") or ""] = s
                     for s in e.findall("DIAG-COMMS/SINGLE-ECU-JOB"):
@@ -169,6 +172,16 @@ class Model:
                 out.append((r.tag, m))
         return out
 
+    def param_sig(self, p: ET.Element) -> Any:
+        """a parameter is what its PARAM element says plus the DATA-OBJECT-PROP it links by ID (an edit of that DOP in
+        place changes bit length / data type / conversion of the parameter although the PARAM element stays the same)"""
+        ref = p.find("DOP-REF")
+        dop = self.dops.get(ref.get("ID-REF") or "") if ref is not None else None
+        return (canon(p), canon(dop) if dop is not None else None)
+
+    def message_sig(self, m: ET.Element) -> Any:
+        return (m.tag, tuple(sorted(m.attrib.items())), txt(m, "SHORT-NAME"), tuple(self.param_sig(p) for p in m.findall("PARAMS/PARAM")))
+
     def service_name(self, sid: str) -> str:
         return txt(self.services[sid], "SHORT-NAME") or ""
 
@@ -213,19 +226,22 @@ def request_prefix(msg: ET.Element) -> Optional[bytes]:
     return bytes(out)
 
 
-def changed_params(old: List[Tuple[str, ET.Element]], new: List[Tuple[str, ET.Element]]) -> Optional[List[List[str]]]:
+def changed_params(old: List[Tuple[str, ET.Element]], new: List[Tuple[str, ET.Element]], mo: Optional["Model"] = None,
+                   mn: Optional["Model"] = None) -> Optional[List[List[str]]]:
     """[[message kind label, parameter short name (new side)]] for PARAM elements that differ; None if the lists of
     messages or parameters have different shapes (never the case after a single attribute edit)"""
     if [t for t, _ in old] != [t for t, _ in new]:
         return None
     out: List[List[str]] = []
-    for (_, mo), (_, mn) in zip(old, new):
-        po, pn = mo.findall("PARAMS/PARAM"), mn.findall("PARAMS/PARAM")
+    for (_, eo), (_, en) in zip(old, new):
+        po, pn = eo.findall("PARAMS/PARAM"), en.findall("PARAMS/PARAM")
         if len(po) != len(pn):
             return None
         for a, b in zip(po, pn):
-            if canon(a) != canon(b):
-                out.append([KIND_LABEL[mn.tag], txt(b, "SHORT-NAME") or ""])
+            sa = mo.param_sig(a) if mo is not None else canon(a)
+            sb = mn.param_sig(b) if mn is not None else canon(b)
+            if sa != sb:
+                out.append([KIND_LABEL[en.tag], txt(b, "SHORT-NAME") or ""])
     return out
 
 
@@ -273,10 +289,10 @@ def layer_diff(mn: Model, lid_new: str, mo: Model, lid_old: str) -> Tuple[Dict[s
         if so[i] != n:
             e["renamed"].append([n, so[i]])
         a, b = mo.service_messages(i), mn.service_messages(i)
-        if [canon(x) for _, x in a] != [canon(x) for _, x in b] or [t for t, _ in a] != [t for t, _ in b]:
+        if [mo.message_sig(x) for _, x in a] != [mn.message_sig(x) for _, x in b] or [t for t, _ in a] != [t for t, _ in b]:
             if so[i] == n:
                 e["changed"].append(n)
-            e["params"][n] = changed_params(a, b)
+            e["params"][n] = changed_params(a, b, mo, mn)
         if mo.service_prefix(i) != mn.service_prefix(i):
             e["prefix_changed"].append(n)
     for i, n in so.items():
